@@ -1212,3 +1212,4 @@ def replay(ctx, payload):
         if _TMP[0]:
             shutil.rmtree(_TMP[0], ignore_errors=True)
             _TMP[0] = None
+THEOREMS += ['gen_send_ffs', 'gen_send_ffcs', 'gen_send_ffe', 'gen_send_ffd']   # translator tie, second round (Props/C09Gen.lean)
